@@ -118,7 +118,7 @@ PROP_INFO["C10"] = {
 
 # ----------------------------------------------------------------------------- C14
 _C14F = ["<serde_json::Value as Queryable>::extension_custom"]
-PROPS["C14"] = [
+_C14_PENDING = [
     H("queryable", "c14_in_" + k, funcs=_C14F, symbolic="x payload; list [int, 1-byte string, [int]] truncated to n in 0..3, all payloads",
       shape="x kind " + k, est=30) for k in ("int", "str", "null", "bool", "nested")
 ] + [
